@@ -43,7 +43,12 @@ pub fn main(tier: &str, seed: u64, n_override: Option<u64>) {
     for idx in 0..n {
         let dof = if rng.below(3) == 0 { 5 } else { 6 };
         let mut p = Parameters { a1: nice(&mut rng), a2: nice(&mut rng), b: nice(&mut rng), c1: nice(&mut rng), c2: nice(&mut rng), c3: nice(&mut rng), c4: nice(&mut rng),
-            offsets: std::array::from_fn(|_| if rng.below(3) == 0 { 0.0 } else { (rng.int(-1800000, 1800000) as f64 / 10000.0).to_radians() }),
+            offsets: std::array::from_fn(|_| match rng.below(7) {
+                0 | 1 => 0.0,
+                2 => (10.0 * rng.int(-36, 36) as f64).to_radians(),          // whole tens of degrees (90, 180, -270 ...)
+                3 => (rng.int(-360, 360) as f64).to_radians(),               // whole degrees
+                4 => rng.range(-1.0, 1.0) * 1e-7,                            // below the printed precision
+                _ => (rng.int(-1800000, 1800000) as f64 / 10000.0).to_radians() }),
             sign_corrections: std::array::from_fn(|_| if rng.bool() { 1 } else { -1 }), dof };
         if dof == 5 { p.sign_corrections[5] = 0; }
         let text = p.to_yaml();
